@@ -105,6 +105,30 @@ def forms(w, rng):
         yield lab, fn, [e, g], ('constraint', m, sense)
 
 
+def foreign_forms(w, rng):
+    """spellings that combine kinds the algebra does not define (scalar +- point, point +- expression, products / quotients of the wrong kinds, a
+    complex / string / None factor, division by zero): each must raise, never return an object with another meaning"""
+    p, q = w.point(), w.point()
+    e, g = w.expression(), w.expression()
+    c = rng.choice([1, 2.5, -1, 0.5])
+    return [
+        ('c + p', lambda: c + p), ('p + c', lambda: p + c), ('c - p', lambda: c - p), ('p - c', lambda: p - c),
+        ('p + e', lambda: p + e), ('e + p', lambda: e + p), ('p - e', lambda: p - e), ('e - p', lambda: e - p),
+        ('p / q', lambda: p / q), ('c / p', lambda: c / p), ('e * g', lambda: e * g), ('e * p', lambda: e * p), ('p * e', lambda: p * e),
+        ('e / g', lambda: e / g), ('c / e', lambda: c / e), ('e ** 2', lambda: e ** 2), ('p <= q', lambda: p <= q), ('p <= c', lambda: p <= c),
+        ('p ** 3', lambda: p ** 3), ('e <= p', lambda: e <= p), ('p / 0', lambda: p / 0), ('e / 0', lambda: e / 0),
+        ("p * 'a'", lambda: p * 'a'), ('p * None', lambda: p * None), ('e + None', lambda: e + None), ("e * 'a'", lambda: e * 'a'),
+        ('p * 1j', lambda: p * 1j), ('e * 1j', lambda: e * 1j), ('1j * e', lambda: 1j * e), ('e / 2j', lambda: e / 2j),
+        ('t = p; t += c', lambda: _aug_add(p, c)), ('t = e; t += p', lambda: _aug_add(e, p)),
+    ]
+
+
+def _aug_add(x, y):
+    t = x
+    t += y
+    return t
+
+
 def run_once(seed, n):
     """returns (evaluations, failures); a failure is (label, clause, text, seed)"""
     fails, evals = [], 0
@@ -134,6 +158,14 @@ def run_once(seed, n):
                 fails.append((label, 'denotes', '`%s` denotes %r, written: %r' % (label, coeffs(res), want), (seed, it)))
             if not res._is_leaf and any(res.decomposition_dict is o.decomposition_dict for o in operands if o is not res):
                 fails.append((label, 'no_shared_dict', 'the result of `%s` shares its decomposition dict with an operand' % label, (seed, it)))
+        if it % 4 == 0:
+            for label, thunk in foreign_forms(w, rng):
+                evals += 1
+                try:
+                    res = thunk()
+                    fails.append((label, 'foreign_raises', '`%s` is not defined by the algebra and must raise; it returned a %s' % (label, type(res).__name__), (seed, it)))
+                except Exception:       # noqa
+                    pass
     return evals, fails
 
 
@@ -150,7 +182,8 @@ def component(run, n_quick=40, n_thorough=400):
                       signature={'form': label, 'clause': clause}, reproduced=True)
     run.bounded['operator-forms'] = {'evaluations': evals, 'failing': len(fails),
                                      'rule': '%d seeded worlds x 40 spellings (binary, reflected, unary, augmented assignment through an alias, comparisons with '
-                                             'either operand a scalar) on real Point / Expression objects: result denotes what is written, operands unchanged, no shared dict' % n}
+                                             'either operand a scalar) on real Point / Expression objects: result denotes what is written, operands unchanged, no shared dict; '
+                                             '32 spellings over kinds the algebra does not define must raise' % n}
 
 
 def replay(rec):
